@@ -80,3 +80,6 @@ pub fn config_with_emit_mode(mode: EmitMode) -> Config {
     c.set().emit_mode(mode);
     c
 }
+
+/// Range algebra and `FileLines` queries (config/file_lines.rs).
+pub use crate::config::file_lines::verif as file_lines;
